@@ -1,25 +1,18 @@
 package checks
 
 import (
-	"sort"
-
 	"github.com/ah-naf/borno/ast"
 
 	"verifharness/bn"
 )
 
-// convObjLit converts an object literal; the implementation keeps properties
-// in a map, so keys are taken in sorted order and tree comparisons sort keys.
+// convObjLit converts an object literal: every written property, in source
+// order (a name may repeat).
 func convObjLit(e *ast.ObjectLiteral) bn.Expr {
 	o := &bn.ObjLit{}
-	keys := make([]string, 0, len(e.Properties))
-	for k := range e.Properties {
-		keys = append(keys, k)
-	}
-	sort.Strings(keys)
-	for _, k := range keys {
+	for i, k := range e.Keys {
 		o.Keys = append(o.Keys, k)
-		o.Vals = append(o.Vals, convExpr(e.Properties[k]))
+		o.Vals = append(o.Vals, convExpr(e.Values[i]))
 	}
 	return o
 }
